@@ -50,6 +50,9 @@ def main():
     meta = {"property": agent_meta.get("property", pid), "seed": os.path.basename(dst), "agent": agent_meta, "needs": agent_meta.get("needs", ""), "summary": agent_meta.get("summary", "")}
     ver = {}
     sh("git checkout -- . && rm -f zz_seed_demo_test.go", wt)
+    head = subprocess.run(["git", "-C", "/repo", "rev-parse", "HEAD"], capture_output=True, text=True).stdout.strip()
+    sh(f"git checkout -q --detach {head}", wt)
+    ver["repo_head"] = head[:10]
     demo = os.path.join(dst, "demo_test.go")
     patch = os.path.join(dst, "patch.diff")
     run_demo = "go test -vet=off -count=5 -timeout 300s -run 'TestSeed' ."
